@@ -393,6 +393,21 @@ impl Reference {
             _ => false,
         }
     }
+
+    /// For deviation models only: the model run left the domain in which TeX's behaviour is
+    /// defined without error recovery (e.g. a macro is about to take `}` as an undelimited
+    /// argument, "Argument of \\c has an extra }" in TeX, silently accepted by texcraft). The
+    /// prediction then covers everything *up to* that point: output and macro expansions must
+    /// start with the predicted ones.
+    fn matches_until_it_leaves_the_domain(&self, run: &XaRun) -> bool {
+        let Some(out) = &self.out else { return false };
+        match &self.stopped {
+            Some(ExpandError::OutOfDomain(why)) if !(why.contains("runaway") || why.contains("end of input")) => {
+                !self.unmatched_brace && run.out.starts_with(out.as_str()) && run.events.starts_with(&self.events)
+            }
+            _ => false,
+        }
+    }
 }
 
 /// One case of the expandafter phases: a macro set, several streams, two VMs (+ reference).
@@ -558,7 +573,11 @@ fn check_streams(set: &MacroSet, extra_preamble: &str, streams: &[Vec<Tok>], wit
                 continue;
             }
             let dev = reference(meanings, stream, rule, trim);
-            if dev.matches(run) {
+            let partial = dev.matches_until_it_leaves_the_domain(run);
+            if partial {
+                obs.count("xa:deviation-model-run-leaves-domain(prefix-matched)");
+            }
+            if dev.matches(run) || partial {
                 if trim == TrimRule::FirstLastOfDelimited {
                     obs.skip("stream-hits-C02-trim-braces-first-last(exact-deviation-model)");
                 }
